@@ -101,9 +101,16 @@ func CheckC03(p *Pkg, e *Env, r *res.Result) {
 	}
 	methods := []string{"GET", "POST", "DELETE", "PATCH"}
 	paths := enumPaths([]string{"a", "b", "x", ""}, 5)
+	// the base path itself, without any segment after it, is not under the base path
+	if base != "" {
+		paths = append(paths, "")
+	}
 	ctx := context.Background()
 	for _, pf := range prefixes {
 		for _, rel := range paths {
+			if pf.v+rel == "" {
+				continue
+			}
 			path := pf.v + rel
 			for _, m := range methods {
 				req := httptest.NewRequest(m, "http://h.example"+escapeForURL(path), nil).WithContext(ctx)
